@@ -64,6 +64,7 @@ NoDup(h)  == Cardinality({h[i].k : i \in DOMAIN h}) = Len(h)
 NoSens(h) == \A i \in DOMAIN h : h[i].lk \notin Sensitive
 SamePL(p) == p.d = J.pl.d /\ p.n = J.pl.n
 Ingress   == J.c.src = "ingress"
+Cnt       == IF J.c.fan THEN 2 ELSE 1      \* stored copies of the message: one per deliver target
 Kept      == J.accept /\ ms # "refused"     \* the message is (still) expected in the store
 
 Init == l = 1 /\ J = NoJ /\ ms = "none"
@@ -83,7 +84,7 @@ SibOK(e, stored) ==
   ELSE e.sibs = <<>>
 
 DumpOK(e, stored) ==
-  /\ Chk("dump_count", Len(e.dump) = (IF stored THEN 1 ELSE 0) /\ e.other = 0)
+  /\ Chk("dump_count", Len(e.dump) = (IF stored THEN Cnt ELSE 0) /\ e.other = 0)
   /\ Chk("dump_trace", ~Ingress => \A i \in DOMAIN e.dump : Pairs(e.dump[i].t) = J.mt)
   /\ Chk("sibling", SibOK(e, stored))
   \* what the in-process consumer still held from its last dequeue did not move under the step in between
@@ -110,7 +111,8 @@ TraceStart ==
   /\ LET e == Trace[l]
      IN /\ Chk("emptystore", e.dump = <<>> /\ e.other = 0)
         /\ J' = [none |-> FALSE, c |-> e.c, pl |-> e.pl, exp |-> ExpConc(e), size |-> ExpSize(e),
-                 accept |-> Accept(e), toobig |-> TooBig(e), mt |-> Pairs(e.mt), sibs |-> e.xsibs]
+                 accept |-> Accept(e), toobig |-> TooBig(e), mt |-> Pairs(e.mt), sibs |-> e.xsibs,
+                 pexp |-> IF e.c.sg THEN {p \in ExpConc(e) : p[1] \notin SeqRange(e.signnames)} ELSE ExpConc(e)]
         /\ ms' = "new"
 
 TraceSubmit ==
@@ -120,7 +122,7 @@ TraceSubmit ==
      IN /\ Chk("status", IF J.accept THEN ok ELSE e.r.status = 413)
         /\ Chk("oversize", J.toobig => e.r.status = 413 /\ e.dump = <<>> /\ e.other = 0)
         /\ Chk("refused_not_stored", ~ok => e.dump = <<>> /\ e.other = 0)
-        /\ Chk("stored_count", Len(e.dump) = (IF J.accept THEN 1 ELSE 0) /\ e.other = 0)
+        /\ Chk("stored_count", Len(e.dump) = (IF J.accept THEN Cnt ELSE 0) /\ e.other = 0)
         /\ Chk("stored_payload", \A i \in DOMAIN e.dump : SamePL(e.dump[i].pl))
         /\ Chk("stored_trace", ~Ingress => \A i \in DOMAIN e.dump : Pairs(e.dump[i].t) = J.mt)
         /\ Chk("stored_sibling", SibOK(e, J.accept /\ ok))
@@ -142,7 +144,8 @@ TraceDeq ==
 TraceList ==
   /\ IsEvent("List")
   /\ LET e == Trace[l]
-     IN /\ Chk("available", (J.accept /\ ms # "refused" /\ (e.a.which = "dlq" => ms = "dead")) => e.r.n = 1 /\ e.r.err = "")
+     IN /\ Chk("available", (J.accept /\ ms # "refused" /\ ~e.a.capped /\ (e.a.which \in {"dlq", "mcpdlq"} => ms = "dead")) => e.r.n = Cnt /\ e.r.err = "")
+        /\ Chk("fanout", e.r.f.n >= 1 => SamePL(e.r.f.pl) /\ Pairs(e.r.f.h) = J.exp /\ (Ingress => NoSens(e.r.f.h) /\ e.r.f.leak = <<>>))
         /\ Chk("refused_not_listed", ms = "refused" => e.r.n = 0)
         /\ ObsOK(e.r)
         /\ DumpOK(e, Kept)
@@ -155,10 +158,16 @@ TracePush ==
   /\ IsEvent("Push")
   /\ LET e == Trace[l]
          r == e.r
-     IN /\ Chk("available", ms = "queued" => r.n = 1 /\ r.err = "")
+     IN /\ Chk("available", ms = "queued" => r.n = 1 /\ r.err = "" /\ (J.c.fan => r.f.n = 1))
         /\ Chk("payload", r.n >= 1 => SamePL(r.pl))
+        \* the other target of a fan-out route gets its own copy: same body, same headers
+        /\ Chk("fanout", r.f.n >= 1 => /\ SamePL(r.f.pl) /\ J.pexp \subseteq Pairs(r.f.h)
+                                        /\ (Ingress => NoSens(r.f.h) /\ r.f.leak = <<>> /\ r.f.wleak = <<>>))
+        \* sign hmac: exactly one signature and one timestamp header, and the signature is the one of the ACCEPTED body
+        /\ Chk("signature", J.c.sg => /\ (r.n >= 1 => r.sig.have # "" /\ r.sig.have = r.sig.want /\ r.sig.nsig = 1 /\ r.sig.nts = 1)
+                                       /\ (r.f.n >= 1 => r.f.sig.have # "" /\ r.f.sig.have = r.f.sig.want /\ r.f.sig.nsig = 1 /\ r.f.sig.nts = 1))
         /\ Chk("sensitive", Ingress => NoSens(r.h) /\ NoSens(r.wh) /\ r.leak = <<>> /\ r.wleak = <<>>)
-        /\ Chk("pushhdr", r.n >= 1 => J.exp \subseteq Pairs(r.h))
+        /\ Chk("pushhdr", r.n >= 1 => J.pexp \subseteq Pairs(r.h))
         /\ Chk("companion", KOK(r.k))
         /\ DumpOK(e, Kept)
         /\ ms' = IF r.n >= 1 THEN After(e.a.outcome) ELSE ms
@@ -196,7 +205,7 @@ TraceOperator ==
                   [] e.ev = "Resume"     -> ms = "canceled"
                   [] e.ev = "RequeueMsg" -> ms \in {"dead", "canceled"}
          to  == IF e.ev = "Cancel" THEN "canceled" ELSE "queued"
-     IN /\ Chk("operator", pre => e.r.n = 1)
+     IN /\ Chk("operator", pre => e.r.n = Cnt)
         /\ DumpOK(e, Kept)
         /\ ms' = IF e.r.n >= 1 THEN to ELSE ms
   /\ UNCHANGED J
@@ -210,9 +219,9 @@ TraceExpire ==
 TraceRequeue ==
   /\ IsEvent("Requeue")
   /\ LET e == Trace[l]
-     IN /\ Chk("requeue", ms = "dead" => e.r.n = 1)
+     IN /\ Chk("requeue", ms = "dead" => e.r.n = Cnt)
         /\ DumpOK(e, Kept)
-        /\ ms' = IF e.r.n = 1 THEN "queued" ELSE ms
+        /\ ms' = IF e.r.n >= 1 THEN "queued" ELSE ms
   /\ UNCHANGED J
 
 \* the message survives a stop / start on the same database, unchanged
